@@ -23,6 +23,39 @@ STATEFUL = {"getenv", "setlocale", "localeconv", "rand", "random", "time", "cloc
 STATE_CELLS = {"__errno_location": "errno"}
 
 
+def _at_most_len(fn, e, lenarg, slack, depth=0):
+    """e <= len - slack on every path: len - k itself (k >= slack), or a value that is either that or was tested to be no larger
+    on the way in (if (n > len - 1) n = len - 1;)"""
+    LEN = ("arg", lenarg)
+    if depth > 3:
+        return False
+    if e == LEN:
+        return slack == 0
+    if e[0] == "bin" and e[1] == "sub" and e[2] == LEN and e[3][0] == "c":
+        return e[3][1] >= slack and e[3][1] >= 0
+    if e[0] == "bin" and e[1] == "add" and e[2] == LEN and e[3][0] == "c":
+        return -e[3][1] >= slack
+    if e[0] == "c":
+        return False
+    if e[0] == "phi":
+        ph = fn.insts[e[1]]
+        for v, pb in ph["inc"]:
+            x = vf.expr(fn, v)
+            if _at_most_len(fn, x, lenarg, slack, depth + 1):
+                continue
+            term = fn.blocks[pb].term
+            Gs = [es.Guards(fn, term)]
+            if term.op == "br" and "cond" in term.d and term["t"] != term["f"]:
+                Gs.append(es.edge_facts(fn, term, term["t"] == ph.block.id))     # what taking this very edge says
+            caps = [("bin", "sub", LEN, ("c", k)) for k in range(slack, slack + 2)] + [("bin", "add", LEN, ("c", -k)) for k in range(slack, slack + 2)] + \
+                   ([LEN] if slack == 0 else [])
+            if any(G.le(x, c) for G in Gs for c in caps) or (slack <= 1 and any(G.lt(x, LEN) for G in Gs)):
+                continue
+            return False
+        return True
+    return False
+
+
 def r1(ctx):
     pdb = ctx.pdb
     ctx.rule("C19.R1", "formatters: writes through the caller's buffer are snprintf(buffer, len, ...) or are dominated by the test "
@@ -62,6 +95,19 @@ def r1(ctx):
                          ((g[1] == "ult" and not t) or (g[1] == "uge" and t))]
                 good = bool(bound) and max(bound) >= INET6_ADDRSTRLEN
                 why = "%s behind len >= %s" % (kind, max(bound) if bound else "nothing")
+                if not good:
+                    # the snprintf contract written out: a count cut to what fits (n = min(n, len - 1)) and a terminator at that count
+                    LEN = ("arg", lenarg)
+                    nz = es.Guards(fn, i).ne(LEN, ("c", 0)) or es.Guards(fn, i).lt(("c", 0), LEN)
+                    if kind == "memcpy":
+                        sz = vf.expr(fn, i.args[2])
+                        good = nz and vf.expr(fn, i.args[0]) == BUF and _at_most_len(fn, sz, lenarg, 0)
+                        why = "copies %s bytes to the start of the buffer; bounded by len: %s (len != 0: %s)" % (vf.show(sz), good, nz)
+                    elif kind == "store" and i.get("size", 1) == 1:
+                        pe = vf.expr(fn, i["ptr"])
+                        ix = pe[2] if pe[0] in ("ptradd", "idx") and pe[1] == BUF else (("c", 0) if pe == BUF else None)
+                        good = nz and ix is not None and _at_most_len(fn, ix, lenarg, 1)
+                        why = "one byte at buffer[%s]; index below len: %s (len != 0: %s)" % (vf.show(ix) if ix else "?", good, nz)
             ctx.check(good, "C19.R1", "%s:write@%d" % (fname, n), i.loc(), why, key="C19.R1:%s:%s" % (fname, kind))
         # longest output from the format strings
         if fname == "lrtr_ipv6_addr_to_str":
@@ -189,6 +235,11 @@ def r2(ctx, retsets):
     wstores = [i for i in fn.all_insts() if i.op == "store" and vf.root_of(vf.expr(fn, i["ptr"])) == W]
     if not wstores:
         raise AnalysisBroken("no store into the group array")
+    blockops = [c for c in fn.calls() if (c.callee or "").startswith(("llvm.memmove", "llvm.memset", "llvm.memcpy", "memmove", "memset", "memcpy"))
+                and vf.root_of(vf.expr(fn, c.args[0])) == W]
+    if blockops:
+        raise AnalysisBroken("lrtr_ipv6_str_to_addr: the group array is now moved / filled with block operations (line %d): the rules on the '::' expansion "
+                             "and on which groups are defined are written for the element-wise loops" % blockops[0].line)
     count_phis = set()
     for s_ in wstores:
         e = vf.expr(fn, s_["ptr"])
